@@ -24,9 +24,19 @@ type Pair struct {
 }
 
 func NewPair(seed int64, shortEpochs bool, nUsers int) (*Pair, error) {
+	return NewPairWith(seed, shortEpochs, nUsers, nil)
+}
+
+// NewPairWith: as NewPair; `shape` may change the world (shards, fresh keys ...) and the history options before start-up.
+func NewPairWith(seed int64, shortEpochs bool, nUsers int, shape func(w *chainfx.World, o *chainfx.HistoryOpts)) (*Pair, error) {
 	r := rand.New(rand.NewSource(seed))
 	w := chainfx.NewWorld(seed, nUsers, 0, time.Date(2030, 1, 1, 0, 0, 0, 0, time.UTC))
-	h, err := chainfx.Bootstrap(w, chainfx.HistoryOpts{ShortEpochs: shortEpochs, TxPerBlock: 4, WithFlips: true, Always: map[int]bool{1: true}}, r, true)
+	o := chainfx.HistoryOpts{ShortEpochs: shortEpochs, TxPerBlock: 4, WithFlips: true, Always: map[int]bool{1: true}}
+	w.Seasoned() // the two proposing identities (genesis Verified) must survive their first ceremonies
+	if shape != nil {
+		shape(w, &o)
+	}
+	h, err := chainfx.Bootstrap(w, o, r, true)
 	if err != nil {
 		return nil, err
 	}
